@@ -24,6 +24,10 @@ Proof.
   intros p position depth nodes H. unfold terminal_score.
   exact (terminalNodeScore_translated position depth nodes (in_check p) ltac:(unfold in_int64; lia) H).
 Qed.
+(* the helper abs that the score formatting calls: its source text means the built-in the semantics gives the call *)
+Theorem C05_source_abs : forall a, run_fn fn_abs [a] [] = do v <- call "abs" [a]; Ok (Returned v).
+Proof. exact abs_translated. Qed.
+Print Assumptions C05_source_abs.
 Print Assumptions C05_source_terminalNodeScore.
 Print Assumptions C05_source_closeToMate.
 Print Assumptions C05_source_fullMovesToMate.
